@@ -197,7 +197,17 @@ Theorem mixture_row_entry x locs scales k :
   nth k (mixture_row gen_normal_nll x locs scales) 0 = gauss_nll_doc x (nth k locs 0) (nth k scales 0).
 Proof. intros Hl Hk Hs. rewrite mixture_row_nth by assumption. apply normal_nll. exact Hs. Qed.
 
+(** * The attachment of the mixture model: its observation model is the ordinary Gaussian one on ONE individual trajectory *)
+
+Theorem attach_mixture y model noise_std :
+  0 < noise_std -> gen_attach_mixture y model noise_std = - ln (normal_pdf y model noise_std) + (c32 - ln (sqrt (2 * PI))).
+Proof. intros. change (gen_attach_mixture y model noise_std) with (gen_normal_nll y model noise_std). apply normal_nll. assumption. Qed.
+
 (** * Non-vacuity *)
+
+Example ex_attach_mixture : gen_attach_mixture (3/10) (1/2) (1/20) = - ln (normal_pdf (3/10) (1/2) (1/20)) + (c32 - ln (sqrt (2 * PI))).
+Proof. apply attach_mixture. lra. Qed.
+
 
 Example ex_srcs_shapes : shift_shapes_ok [[1/2; -1; 2]; [0; 1; 1]] [[1; 2]; [3; 4]; [5; 6]] 1 1.
 Proof. unfold shift_shapes_ok. simpl. repeat split; repeat constructor. Qed.
